@@ -81,6 +81,7 @@
 package fscache
 
 import (
+	"bytes"
 	"cmp"
 	"context"
 	"crypto/rand"
@@ -386,10 +387,14 @@ func (c *fsCache) Set(key string, entry []byte) error {
 	ctx, cancel := context.WithTimeout(context.Background(), c.timeout)
 	defer cancel()
 
+	// The write may outlive this call (it is abandoned, not interrupted, when the
+	// operation timeout fires): it works on its own copy, so that the caller may reuse
+	// its buffer as soon as Set has returned.
+	entry = bytes.Clone(entry)
 	errc := make(chan error, 1)
 	go func() {
 		defer close(errc)
-		err := c.set(key, entry)
+		err := c.set(ctx, key, entry)
 		if err != nil {
 			errc <- &Error{"Set", key, err}
 			return
@@ -405,7 +410,7 @@ func (c *fsCache) Set(key string, entry []byte) error {
 	}
 }
 
-func (c *fsCache) set(key string, entry []byte) error {
+func (c *fsCache) set(ctx context.Context, key string, entry []byte) error {
 	if c.enc != nil {
 		var err error
 		entry, err = c.enc.Encrypt(entry)
@@ -432,6 +437,11 @@ func (c *fsCache) set(key string, entry []byte) error {
 	}
 	if cerr := f.Close(); err == nil {
 		err = cerr
+	}
+	if err == nil {
+		// A Set that has already reported its timeout to the caller does not take effect
+		// afterwards (it could otherwise override a later, successful Set of the key).
+		err = ctx.Err()
 	}
 	if err == nil {
 		err = c.root.Rename(tmp, name)
